@@ -70,10 +70,12 @@ def run_stress(chk, binary, jobs, g, procs, rounds, seedv, name):
     vlib.write_ndjson(jp, jobs)
     env = dict(os.environ, GOMAXPROCS=str(procs), GORACE="halt_on_error=0 exitcode=0")
     try:
-        p = subprocess.run([binary, "-in", jp, "-out", ep, "-g", str(g), "-rounds", str(rounds), "-seed", str(seedv)], capture_output=True, text=True, timeout=600, env=env)
+        p = subprocess.run([binary, "-in", jp, "-out", ep, "-g", str(g), "-rounds", str(rounds), "-seed", str(seedv)], capture_output=True, text=True, timeout=3000, env=env)
     except subprocess.TimeoutExpired:
-        return [dict(op="deadlock", hist=0)], ""
+        raise vlib.Inconclusive("stress run did not end within 3000 s although its own watchdog should have ended it")
     evs = vlib.read_ndjson(ep) if os.path.exists(ep) else []
+    if any(e.get("op") == "timeout" for e in evs):
+        raise vlib.Inconclusive("stress run %s was still making progress after its time limit (machine too loaded?): no verdict" % name)
     if "WARNING: DATA RACE" in p.stderr:
         evs.append(dict(op="race", hist=0, report=p.stderr[:1500]))
     if p.returncode not in (0, 3) :
@@ -163,12 +165,12 @@ def run(tier):
         ep = os.path.join(chk.work, "sched.events")
         json.dump(sched, open(sp, "w"))
         try:
-            p = subprocess.run([binary, "-mode", "schedule", "-in", sp, "-out", ep], capture_output=True, text=True, timeout=150, env=dict(os.environ, GORACE="halt_on_error=0 exitcode=0"))
+            p = subprocess.run([binary, "-mode", "schedule", "-stall", "90", "-in", sp, "-out", ep], capture_output=True, text=True, timeout=900, env=dict(os.environ, GORACE="halt_on_error=0 exitcode=0"))
             evs = vlib.read_ndjson(ep)
             if "WARNING: DATA RACE" in p.stderr:
                 evs.append(dict(op="race", hist=0))
         except subprocess.TimeoutExpired:
-            evs = [dict(op="deadlock", hist=0)]
+            raise vlib.Inconclusive("schedule replay did not end within 900 s although its own watchdog should have ended it")
         sched_traces.append((sched, evs))
     # validation: TraceConc on every trace (the config pseudo-event is skipped), TraceGF on the schedule runs' results
     shards = [[e for e in t[2] if e["op"] != "config"] for t in traces] + [evs for _, evs in sched_traces]
@@ -209,7 +211,7 @@ def run(tier):
             else:
                 sched = sched_traces[idx - len(traces)][0]
                 json.dump(sched, open(os.path.join(chk.work, "sched.json"), "w"))
-                subprocess.run([binary, "-mode", "schedule", "-in", os.path.join(chk.work, "sched.json"), "-out", os.path.join(chk.work, "re.events")], capture_output=True, timeout=200)
+                subprocess.run([binary, "-mode", "schedule", "-stall", "90", "-in", os.path.join(chk.work, "sched.json"), "-out", os.path.join(chk.work, "re.events")], capture_output=True, timeout=900)
                 evs2 = vlib.read_ndjson(os.path.join(chk.work, "re.events"))
                 replay_obj = dict(kind="schedule", sched=sched, expect=why)
             _, b2, _, _ = vlib.validate_traces(chk.work, "TraceConc", "TraceConc.cfg", [evs2], timeout=3000)
@@ -237,7 +239,7 @@ def replay(path):
             evs, _ = run_stress(chk, binary, r["jobs"], r["g"], r["gomaxprocs"], 2, attempt, "re")
         else:
             json.dump(r["sched"], open(os.path.join(chk.work, "s.json"), "w"))
-            subprocess.run([binary, "-mode", "schedule", "-in", os.path.join(chk.work, "s.json"), "-out", os.path.join(chk.work, "s.events")], capture_output=True, timeout=200)
+            subprocess.run([binary, "-mode", "schedule", "-stall", "90", "-in", os.path.join(chk.work, "s.json"), "-out", os.path.join(chk.work, "s.events")], capture_output=True, timeout=900)
             evs = vlib.read_ndjson(os.path.join(chk.work, "s.events"))
         _, bad, _, _ = vlib.validate_traces(chk.work, "TraceConc", "TraceConc.cfg", [evs])
         if r["expect"] in {b["why"] for b in bad}:
